@@ -7,6 +7,19 @@ A', same verification / falsification sets, A unsatisfiable) are established by 
 and re-checked by truth table (<= TT_ATOMS atoms) or by pysmt validity (independent of InfOCF).
 
 Entry points: run_c08, run_c09, run_c11, run_c12 (tier, seed) and replay(v).
+
+Bases: the shipped corpora under /repo/examples (birds, AO_*, gen, the 484 representatives, random_large
+with their query files, plus base-derived random queries), seeded S3 bases, generated literal bases of
+10-25 atoms / 10-30 conditionals.  Sizes per property and tier: SIZES.  Measured on 16 cores (seed 1,
+CPU seconds in brackets): quick c08 63 s [710], c09 109 s [1540], c11 112 s [1620], c12 74 s [1050];
+thorough c08 13 min [8900], c09 15-19 min [14400], c11 15-24 min [14000], c12 16-19 min [15400]
+(the longer wall times were taken while other jobs shared the machine).  Largest corpus bases:
+randomTest_100_100 / 120_120 under every operator with total_timeout 150 s and a hard wall limit of
+HARD_LIMIT per operator run (a c-inference CSP of such a base can keep z3 busy for > 20 min; such a run is
+"skipped", never judged); the 60_120, 100_200, 120_200 families (system-w/z3 > 2 min per 10 queries) are left out.
+
+C11 runs every configuration in a forked child (`forked`): some pysat engines kill the interpreter
+(rc2-mpl: SIGSEGV on an empty WCNF; kissat aborts), which would otherwise hang the worker pool.
 """
 from __future__ import annotations
 
@@ -160,10 +173,19 @@ def rename_text(t, mapping):
 # ---------------------------------------------------------------------------
 # classical checks (independent of InfOCF's inference code)
 # ---------------------------------------------------------------------------
+_FML_CACHE = {}
+
+
 def _fml(text):
+    """InfOCF's own parser (ANTLR, slow): parsed formulas are immutable pysmt nodes and are shared"""
     from parser.Wrappers import parse_formula
 
-    return parse_formula(text)
+    f = _FML_CACHE.get(text)
+    if f is None:
+        if len(_FML_CACHE) > 50000:
+            _FML_CACHE.clear()
+        f = _FML_CACHE[text] = parse_formula(text)
+    return f
 
 
 def _valid(f):
@@ -178,22 +200,34 @@ def _valid(f):
     return bool(is_valid(f))
 
 
+_CHK_CACHE = {}
+
+
+def _cached(kind, key, fn):
+    k = (kind,) + key
+    if k not in _CHK_CACHE:
+        if len(_CHK_CACHE) > 100000:
+            _CHK_CACHE.clear()
+        _CHK_CACHE[k] = fn()
+    return _CHK_CACHE[k]
+
+
 def entails(t1, t2):
     from pysmt.shortcuts import Implies
 
-    return _valid(Implies(_fml(t1), _fml(t2)))
+    return _cached("ent", (t1, t2), lambda: _valid(Implies(_fml(t1), _fml(t2))))
 
 
 def equivalent(t1, t2):
     from pysmt.shortcuts import Iff
 
-    return _valid(Iff(_fml(t1), _fml(t2)))
+    return _cached("eqv", (t1, t2), lambda: _valid(Iff(_fml(t1), _fml(t2))))
 
 
 def unsat(t):
     from pysmt.shortcuts import Not
 
-    return _valid(Not(_fml(t)))
+    return _cached("uns", (t,), lambda: _valid(Not(_fml(t))))
 
 
 def same_ver_fal(c1, c2):
@@ -208,9 +242,10 @@ def same_ver_fal(c1, c2):
 # running the real code
 # ---------------------------------------------------------------------------
 def mkcond(b, a):
-    from oracle.gen import cond
+    """a fresh Conditional object per call (operators may set attributes on it); formulas from the parse cache"""
+    from inference.conditional import Conditional
 
-    return cond(b, a)
+    return Conditional(_fml(b), _fml(a), f"({b}|{a})")
 
 
 def load_base(base):
@@ -234,6 +269,7 @@ def triples_of(conds):
 
 
 REFUSALS = ("belief base inconsistent", "belief base empty")
+HARD_LIMIT = 420  # seconds of wall time for one operator run on a big base; overrun = not judged ("skipped")
 
 
 def run_cfg(sig, conds, queries, system, pm, weakly, timeout=0):
@@ -262,7 +298,15 @@ def _eval_item(item):
     queries = [mkcond(b, a) for b, a in qtexts]
     out = {}
     for system, pm, weakly in cfgs:
-        out[(system, pm, weakly)] = run_cfg(sig, conds, queries, system, pm, weakly, timeout)
+        if timeout:
+            # big bases: InfOCF's own timeouts do not interrupt a single z3 / RC2 call (a c-inference CSP over a
+            # 100-atom base can keep z3 busy for tens of minutes), so the run gets a hard wall limit as well
+            r = forked(_run_cfg_args, (sig, conds, queries, system, pm, weakly, timeout), limit=HARD_LIMIT)
+            if "died" in r:
+                r = {"skipped": r["died"]} if r.get("limit") else {"exc": "DIED " + r["died"]}
+        else:
+            r = run_cfg(sig, conds, queries, system, pm, weakly, timeout)
+        out[(system, pm, weakly)] = r
     return tag, out
 
 
@@ -302,7 +346,7 @@ def forked(fn, arg, limit=600):
             if left <= 0:
                 os.kill(pid, signal.SIGKILL)
                 os.waitpid(pid, 0)
-                return {"died": f"no result after {limit} s (killed)"}
+                return {"died": f"no result after {limit} s (killed)", "limit": True}
             if select.select([f], [], [], min(left, 5.0))[0]:
                 b = os.read(f.fileno(), 1 << 20)
                 if not b:
@@ -331,7 +375,7 @@ def _eval_item_guarded(item):
     for system, pm, weakly in cfgs:
         r = forked(_run_cfg_args, (sig, conds, queries, system, pm, weakly, timeout), limit=max(300, 4 * timeout))
         if "died" in r:
-            r = {"exc": "DIED " + r["died"]}
+            r = {"skipped": r["died"]} if r.get("limit") else {"exc": "DIED " + r["died"]}
         out[(system, pm, weakly)] = r
     return tag, out
 
@@ -449,7 +493,7 @@ def _strongly_consistent(sig, triples):
 SIZES = {
     # n484, random_large [(a, b, instances, timeout)], S3 bases, S3 queries, generated bases, queries per generated/corpus base
     "c08": {
-        "quick": dict(n484=40, rl=[(6, 6, 2), (8, 8, 2), (10, 10, 2), (12, 12, 2), (14, 14, 1), (16, 16, 1), (18, 18, 1), (20, 20, 1), (30, 30, 1), (40, 40, 1)], s3=250, s3q=8, gen=24, gq=12),
+        "quick": dict(n484=80, rl=[(a, a, 2) for a in (6, 8, 10, 12, 14, 16, 18, 20)] + [(30, 30, 1), (40, 40, 1), (50, 50, 1)], s3=500, s3q=8, gen=40, gq=12),
         "thorough": dict(
             n484=484,
             rl=[(a, a, 10) for a in (6, 8, 10, 12, 14, 16, 18, 20, 30, 40)]
@@ -624,12 +668,14 @@ def run_c08(tier, seed):
     cfgs = all_cfgs()
     per_case = _collect(pmap(_eval_item, _plan(cases, cfgs)))
     evaluations, fps, violations, rejected = 0, set(), [], 0
-    extra = {"exceptions": 0, "mixed_refusal": 0, "undecided_rows": 0, "violations_total": 0, "true_by_system": {}}
+    extra = {"exceptions": 0, "mixed_refusal": 0, "undecided_rows": 0, "skipped_runs": 0, "violations_total": 0, "true_by_system": {}}
     samples = []
     for ci, res in sorted(per_case.items()):
         c = cases[ci]
         for weakly in (False, True):
             cur = {(s, pm): r for (s, pm, w), r in res.items() if w == weakly}
+            extra["skipped_runs"] += sum("skipped" in r for r in cur.values())
+            cur = {k: r for k, r in cur.items() if "skipped" not in r}
             refused = [k for k, r in cur.items() if "refused" in r]
             if refused:
                 if len(refused) != len(cur):
@@ -1021,7 +1067,7 @@ def run_c11(tier, seed):
         per_case.setdefault(ci, {}).update(out)
     nontriv = dict(pmap(_c11_nontrivial, [(ci, c["qtexts"]) for ci, c in enumerate(cases)]))
     evaluations, fps, violations, rejected = 0, set(), [], 0
-    extra = {"usable_engines": usable, "engines_constructing_but_defective": probe["defective"], "engines_unavailable": probe["unavailable"], "violations_total": 0, "exceptions": 0, "disagreeing_backends": {}}
+    extra = {"usable_engines": usable, "engines_constructing_but_defective": probe["defective"], "engines_unavailable": probe["unavailable"], "violations_total": 0, "exceptions": 0, "skipped_runs": 0, "disagreeing_backends": {}}
     samples = []
     for ci, res in sorted(per_case.items()):
         c = cases[ci]
@@ -1030,13 +1076,16 @@ def run_c11(tier, seed):
             groups.setdefault((s, w), {})[pm] = r
         accepted = False
         for (s, w), g in sorted(groups.items()):
-            if all("refused" in r for r in g.values()):
+            if all("refused" in r or "skipped" in r for r in g.values()):
                 rejected += 1
                 continue
             accepted = True
             ref_pm = "rc2"
             ref = g[ref_pm]
             for pm, r in sorted(g.items()):
+                if "skipped" in r or "skipped" in ref:
+                    extra["skipped_runs"] += 1
+                    continue
                 evaluations += 1
                 if pm == ref_pm:
                     continue
@@ -1074,7 +1123,7 @@ def run_c11(tier, seed):
         for (si, s, e), out in pmap(_eval_item_guarded, ditems):
             c = small[si]
             ref, r = out[(s, "rc2", False)], out[(s, f"rc2-{e}", False)]
-            if "refused" in ref:
+            if "refused" in ref or "skipped" in ref or "skipped" in r:
                 continue
             evaluations += 1
             if "ans" in ref and "ans" in r and ref["ans"] == r["ans"]:
@@ -1117,7 +1166,7 @@ def _replay_c11(v):
         if "ans" in a and "ans" in b:
             bad = any(x != y for x, y, t1, t2 in zip(a["ans"], b["ans"], a["to"], b["to"]) if not (t1 or t2))
         else:
-            bad = not ("refused" in a and "refused" in b)
+            bad = not (("refused" in a and "refused" in b) or "skipped" in a or "skipped" in b)
         if bad:
             break
     return {"violates": bool(bad), "attempts": attempt, i["backends"][0]: a, i["backends"][1]: b}
